@@ -55,6 +55,52 @@ func gcSegDist(p, a, b v3, r float64) float64 {
 	return math.Min(vangle(p, a), vangle(p, b)) * r
 }
 
+// gnomonicAt: coordinates of (lat, lon) in the gnomonic (central) projection centred on
+// (lat0, lon0), computed from the coordinate DIFFERENCES without cancellation, so that points a
+// few millimetres apart keep full relative precision.  Great circles are straight lines in this
+// plane and the plane distance from the origin is the tangent of the angular distance.
+func gnomonicAt(lat0, lon0, lat, lon float64) (x, y float64) {
+	rad := math.Pi / 180
+	dlat, dlon := (lat-lat0)*rad, math.Remainder(lon-lon0, 360)*rad
+	s0, c0 := math.Sincos(lat0 * rad)
+	_, c1 := math.Sincos(lat * rad)
+	h := math.Sin(dlon / 2)
+	east := c1 * math.Sin(dlon)
+	north := math.Sin(dlat) + s0*c1*2*h*h // = c0*s1 - s0*c1*cos(dlon)
+	// up = s0*s1 + c0*c1*cos(dlon) = cos(dlat) - c0*c1*2h²
+	up := math.Cos(dlat) - c0*c1*2*h*h
+	return east / up, north / up
+}
+
+// gcDistLL: angular great-circle distance, cancellation-free for close points.
+func gcDistLL(lat1, lon1, lat2, lon2 float64) float64 {
+	if math.Abs(lat1-lat2) < 30 && math.Abs(math.Remainder(lon1-lon2, 360)) < 30 && math.Abs(lat1) < 89 {
+		x, y := gnomonicAt(lat1, lon1, lat2, lon2)
+		return math.Atan(math.Hypot(x, y))
+	}
+	return vangle(toVec(lat1, lon1), toVec(lat2, lon2))
+}
+
+// gcSegDistLL: great-circle distance from P to the segment A-B (end caps included), accurate to
+// a relative 1e-14 also for segments of a metre and offsets of a millimetre.
+func gcSegDistLL(latP, lonP, latA, lonA, latB, lonB, r float64) float64 {
+	ax, ay := gnomonicAt(latP, lonP, latA, lonA)
+	bx, by := gnomonicAt(latP, lonP, latB, lonB)
+	dx, dy := bx-ax, by-ay
+	l2 := dx*dx + dy*dy
+	end := math.Min(math.Hypot(ax, ay), math.Hypot(bx, by))
+	if l2 == 0 {
+		return math.Atan(end) * r
+	}
+	// foot of the perpendicular from the origin, as a parameter along A->B
+	t := -(ax*dx + ay*dy) / l2
+	if t < 0 || t > 1 {
+		return math.Atan(end) * r
+	}
+	cross := math.Abs(ax*dy-ay*dx) / math.Sqrt(l2)
+	return math.Atan(cross) * r
+}
+
 // ---- implementation side ---------------------------------------------------------------
 
 func parseFloats(toks []string) []float64 {
@@ -208,7 +254,7 @@ func genGE(cfg *config, r *rng, i int, s *sink) string {
 		}
 		bl, bo := offsetPoint(lat, lon, bearing, along, radius)
 		pl, po := offsetPoint(bl, bo, bearing+side, off, radius)
-		dist := gcSegDist(toVec(pl, po), toVec(lat, lon), toVec(lat2, lon2), radius)
+		dist := gcSegDistLL(pl, po, lat, lon, lat2, lon2, radius)
 		if kind == "dtl" {
 			return "dtl " + hexFloats(radius, pl, po, lat, lon, lat2, lon2, dist)
 		}
@@ -233,7 +279,7 @@ func genGE(cfg *config, r *rng, i int, s *sink) string {
 		if r.chance(1, 30) {
 			lat2, lon2 = lat, lon
 		}
-		gc := vangle(toVec(lat, lon), toVec(lat2, lon2)) * radius
+		gc := gcDistLL(lat, lon, lat2, lon2) * radius
 		f := "0"
 		if fast {
 			f = "1"
@@ -321,12 +367,12 @@ func corpusGE(cfg *config) []string {
 	return []string{
 		// the repository's own examples
 		"onl " + hexFloats(10, 6378137, 50.858006, -0.752614, 50.857928, -0.752664, 50.857939, -0.752523,
-			gcSegDist(toVec(50.858006, -0.752614), toVec(50.857928, -0.752664), toVec(50.857939, -0.752523), 6378137)),
+			gcSegDistLL(50.858006, -0.752614, 50.857928, -0.752664, 50.857939, -0.752523, 6378137)),
 		"onl " + hexFloats(1, 6378137, 50.858006, -0.752614, 50.857928, -0.752664, 50.857939, -0.752523,
-			gcSegDist(toVec(50.858006, -0.752614), toVec(50.857928, -0.752664), toVec(50.857939, -0.752523), 6378137)),
+			gcSegDistLL(50.858006, -0.752614, 50.857928, -0.752664, 50.857939, -0.752523, 6378137)),
 		// 100 m east of a north-south segment at latitude 60 (was reported 200 m away)
 		"dtl " + hexFloats(6378137, 60.0, 100.0/(111319.49*0.5), 59.999, 0, 60.001, 0,
-			gcSegDist(toVec(60.0, 100.0/(111319.49*0.5)), toVec(59.999, 0), toVec(60.001, 0), 6378137)),
+			gcSegDistLL(60.0, 100.0/(111319.49*0.5), 59.999, 0, 60.001, 0, 6378137)),
 		// crossing segments (was "doesn't intersect"), and a meridional one
 		"ix " + hexFloats(0, -1, 0, 1, -1, 0, 1, 0) + " " + hexFloats(0, 0) + " 1 1",
 		"ix " + hexFloats(0, -1, 0, -0.5, -1, 0, 1, 0) + " " + hexFloats(0, 0) + " 0 1",
